@@ -1,5 +1,6 @@
 import DriverLib.Basic
 import DriverLib.Flag
+import DriverLib.CallShape
 import QV.Model.States
 import QV.Model.Density
 open Lean Drv QV
@@ -175,9 +176,36 @@ def flagged (j : Json) : R Json := do
   | some (.vector p) =>
     return Json.mkObj (forms ++ [("layout", .str "vector"), ("re", fVecOut fun i => (p i).1), ("im", fVecOut fun i => (p i).2)])
 
+/-- op `c02.callform`: `rho` / `pi` / `gamma` as written, on tensor arguments of any rank combination.
+in : fn ("rho"|"pi"|"gamma_am_p"|"gamma_am_m"|"gamma_ph_p"|"gamma_ph_m"), n, h, a, am, ph, v = {shape, rows}, vp = {shape, rows} | null,
+     expand (bool)
+out: {shape, data} | {error} -/
+def callform (j : Json) : R Json := do
+  let fn ← jStr (← fld j "fn")
+  let n ← jNat (← fld j "n")
+  let h ← jNat (← fld j "h")
+  let a ← jNat (← fld j "a")
+  let am ← parsePRBM (← fld j "am") n h a
+  let ph ← parsePRBM (← fld j "ph") n h a
+  let v ← parseFT (← fld j "v") n
+  let vp ← parseFTOpt j "vp" n
+  let expand ← jBool (← fld j "expand")
+  let both : R (FT (Fin n → Float)) := match vp with
+    | some w => pure w
+    | none => throw "c02.callform: pi / gamma need vp"
+  match fn with
+  | "rho" => return ftOut encPair (Density.rhoCall am ph v vp expand)
+  | "pi" => do return ftOut encPair (Density.piCall am ph v (← both) expand)
+  | "gamma_am_p" => do return ftOut encScalar (am.gammaCall 1.0 v (← both) expand)
+  | "gamma_am_m" => do return ftOut encScalar (am.gammaCall (-1.0) v (← both) expand)
+  | "gamma_ph_p" => do return ftOut encScalar (ph.gammaCall 1.0 v (← both) expand)
+  | "gamma_ph_m" => do return ftOut encScalar (ph.gammaCall (-1.0) v (← both) expand)
+  | _ => throw s!"c02.callform: unknown fn {fn}"
+
 def handle (op : String) (j : Json) : Option (R Json) :=
   match op with
   | "c02.flagged" => some (flagged j)
+  | "c02.callform" => some (callform j)
   | "c02.rho_outcome" => some (rhoOutcome j)
   | "c02.mixed" => some (mixed j)
   | "c02.paired_batch" => some (pairedBatch j)
